@@ -12,6 +12,9 @@ import ZCV.Lemmas.LogFormatParse
 import ZCV.Lemmas.LogTemplate
 import ZCV.Lemmas.LogTemplateTokens
 import ZCV.Lemmas.LogTemplateAccept
+import ZCV.Lemmas.LogStrFormat
+import ZCV.Lemmas.LogStrFormatPlain
+import ZCV.Lemmas.LogStrFormatSpecs
 /-!
 # C20 — logger sections produce exactly the configured logging setup, once (decision logic)
 
@@ -34,6 +37,16 @@ import ZCV.Lemmas.LogTemplateAccept
   `C20_template_scan_spec`, `C20_template_known_names`, `C20_template_accepts_iff`, `C20_template_format_safe` (and `_for`), `C20_template_formatter_builds`,
   `C20_template_format_iff`, `C20_template_errors`, `C20_template_configured_safe`, `C20_safe_template_accepts_all`,
   `C20_safe_template_never_raises`, `C20_safe_template_format_iff`, `C20_template_str_limit_needed`
+* `format` log formats (`str.format` fields), about the model `ZCV/Model/LogStrFormat.lean` (load time:
+  `string.Formatter().vformat` on the sample record + `logging.StrFormatStyle.validate`; run time: `str.format`; compared
+  with the running `FormatterFactory`, `string.Formatter`, `str.format` and the real loader; driver op `logsfmt`):
+  `C20_strformat_accepts_iff`, `C20_strformat_accepts_iff_plain`, `C20_strformat_spec_allowed`,
+  `C20_strformat_format_safe_partial` (and `_for_partial`,
+  `_wide_partial`: the plain formats — bare keys, no nested fields), `C20_strformat_formatter_builds`,
+  `C20_strformat_errors`, `C20_strformat_configured_safe_partial`, `C20_strformat_stylist_safe_partial`, and the
+  counterexamples — accepted formats that raise on ordinary records — `C20_strformat_index_needed`,
+  `C20_strformat_attr_needed`, `C20_strformat_nested_needed`, `C20_strformat_char_needs_range`,
+  `C20_strformat_str_limit_needed`
 -/
 namespace ZCV.Props.C20
 open ZCV ZCV.Log ZCV.LogSetup
@@ -857,5 +870,365 @@ example : formatSafeTemplate "hello $ ${9} $nosuchfield $message".toList (lookup
     formatTemplate "hello $nosuchfield".toList (lookup exRecordTable) = .error .valueError := by decide +kernel
 
 end Template
+
+/-! ## `format` log formats (`str.format` fields)
+
+About `ZCV/Model/LogStrFormat.lean`: `parse` models `_string.formatter_parser` (CPython 3.12), `vformatRun` / `cformatRun`
+which calls of `string.Formatter().vformat(fmt, (), d)` / `fmt.format(**d)` raise (and which class), `acceptsStrFormat`
+models `FormatterFactory.__init__` for `style format` with `arbitrary-fields off` and the default formatter class (trial
+`vformat` of the sample record, `IndexError` turned into `ValueError`, then `logging.Formatter(fmt, datefmt, style='{')`,
+which runs `logging.StrFormatStyle.validate`), and `formatStr` models `logging.Formatter.formatMessage` on a record at run
+time (`fmt.format(**record.__dict__)`, `KeyError` turned into `ValueError`).  Where the model does not know the outcome
+(attributes of objects it does not represent, the text of a nested field it cannot compute, astronomic widths) it abstains
+with `SErr.unmodelled`; an abstention at load time counts as "not accepted", so every theorem below about accepted formats
+is about formats the real loader accepts.
+
+THE PROPERTY IS FALSE for `style format` in general: `{message[0]}`, `{exc_text.__bool__}`, `{message:{relativeCreated}}`
+are accepted at load time (arbitrary-fields off) and raise on ordinary records (`C20_strformat_index_needed`,
+`C20_strformat_attr_needed`, `C20_strformat_nested_needed`).  It is proved for the PLAIN formats — every replacement field
+is `{key}`, `{key!conv}`, `{key:spec}` or `{key!conv:spec}` with a bare key and a spec without braces
+(`LogStrFormatSpec.Plain`, decidable): `C20_strformat_format_safe_partial`. -/
+
+section StrFormat
+open ZCV.LogStrFormat ZCV.LogStrFormatSpec ZCV.LogStrFormatLemmas ZCV.LogFormatSpec
+open ZCV.LogFormat (Value Dict FloatKind PyErr strCheck floatLimit maxUnicode hasInfix ctrlCharInsert)
+
+/-- What `style format` accepts at load time (arbitrary-fields off), for ANY format, step by step.  A format (the empty
+    format stands for `{message}`) is accepted exactly when it has no syntax error, has at least one replacement field with
+    a non-empty name, and every replacement field `{name!conv:spec}`
+    * passes logging's validation: the name matches `(\d+|\w+)(\.\w+|\[[^]]+\])*`, the conversion is none or `r s a`, the
+      spec is empty or matches `(.?[<>=^])?[+ -]?#?0?(\d+|{\w+})?[,_]?(\.(\d+|{\w+}))?[bcdefgnosx%]?` (case-insensitive), and
+    * works on the sample record: `get_field` finds an object (the first name is an attribute of the sample record, every
+      `.attr` / `[index]` step succeeds), the conversion works, the spec — with its nested fields expanded on the sample
+      record — is one `format()` takes for that object. -/
+theorem C20_strformat_accepts_iff (fmt : Str) :
+    acceptsStrFormat fmt = true ↔
+      (∀ it ∈ LogStrFormat.parse (effectiveStr fmt), ItemAcceptedS it) ∧
+      ∃ it ∈ LogStrFormat.parse (effectiveStr fmt), isNamedField it = true :=
+  sf_accepts_items fmt
+
+/-- What `style format` accepts among the PLAIN formats (bare keys, no nested fields), read off the format string:
+    no syntax error, at least one field, and every field is `{key!conv:spec}` where `key` is a record attribute (the
+    `LogRecord` attributes of Python 3.12, `asctime`, `message`), the conversion is none or `!r !s !a`, and the spec is
+    empty or one that both logging's pattern and the formatted object take (`SpecAllowed`): after a conversion and for the
+    string attributes the `str` specs (`[[fill]align][0][width][.precision][s]`, no sign, `#`, `z`, `,`, `_` or `=`); for
+    `None` / object attributes only the empty spec; for level and line numbers every `int` spec (`b c d o x X n`, and
+    `e E f F g G %`); for thread and process ids the same without `c`; for time stamps the `float` specs. -/
+theorem C20_strformat_accepts_iff_plain (fmt : Str) (hp : Plain fmt) :
+    acceptsStrFormat fmt = true ↔
+      (∀ it ∈ LogStrFormat.parse (effectiveStr fmt), PlainItemAccepted it) ∧
+      ∃ it ∈ LogStrFormat.parse (effectiveStr fmt), isNamedField it = true := by
+  rw [C20_strformat_accepts_iff]
+  have hitem : ∀ it ∈ LogStrFormat.parse (effectiveStr fmt), (ItemAcceptedS it ↔ PlainItemAccepted it) := by
+    intro it hm
+    have hpl := List.all_eq_true.mp hp _ hm
+    cases it with
+    | lit s => exact Iff.rfl
+    | bad => exact Iff.rfl
+    | field n c s =>
+      simp only [plainItem, Bool.and_eq_true] at hpl
+      exact sf_plain_item_iff n c s hpl.1 hpl.2
+  exact and_congr ⟨fun h it hm => (hitem it hm).mp (h it hm), fun h it hm => (hitem it hm).mpr (h it hm)⟩ Iff.rfl
+
+/-- `SpecAllowed` spelled out: the specs `[[fill]align][sign][z][#][0][width][grouping][.precision][type]` each kind of
+    object takes, on the spec as CPython's `parse_internal_render_format_spec` reads it (`parseFSpec`; it already refuses a
+    `,` or `_` the presentation type does not allow) — widths and float precisions up to 2^24 (above, the model abstains).
+    * a `str` (string attributes, anything after `!r !s !a`): type `s` or none, no sign, no `z`, no `#`, alignment not `=`;
+    * a level or line number: an integer type `b c d o x X n` (or none) without precision and `z`, `c` moreover without
+      sign and `#` — or a float type `e E f F g G %`;
+    * a thread or process id: the same without `c`;
+    * a time stamp: a float type, `n`, or none. -/
+theorem C20_strformat_spec_allowed (spec : Str) :
+    (strFormat spec = .ok () ↔
+      ∃ f, parseFSpec (some 's') spec = some f ∧ (f.type = none ∨ f.type = some 's') ∧ f.sign = none ∧ f.z = false ∧
+        f.alt = false ∧ f.align ≠ some '=' ∧ f.width.getD 0 ≤ sizeLimit) ∧
+    (intFormat spec 0 = .ok () ↔
+      ∃ f, parseFSpec (some 'd') spec = some f ∧ f.width.getD 0 ≤ sizeLimit ∧
+        ((isIntType (f.type.getD 'd') = true ∧ f.prec = none ∧ f.z = false ∧
+            (f.type.getD 'd' = 'c' → f.sign = none ∧ f.alt = false)) ∨
+         (isFloatType (f.type.getD 'd') = true ∧ f.prec.getD 0 ≤ sizeLimit))) ∧
+    (intFormat spec 0x110000 = .ok () ↔
+      ∃ f, parseFSpec (some 'd') spec = some f ∧ f.width.getD 0 ≤ sizeLimit ∧
+        ((isIntType (f.type.getD 'd') = true ∧ f.prec = none ∧ f.z = false ∧ f.type.getD 'd' ≠ 'c') ∨
+         (isFloatType (f.type.getD 'd') = true ∧ f.prec.getD 0 ≤ sizeLimit))) ∧
+    (floatFormat spec = .ok () ↔
+      ∃ f, parseFSpec none spec = some f ∧
+        (f.type = none ∨ ∃ c, f.type = some c ∧ (isFloatType c = true ∨ c = 'n')) ∧
+        f.width.getD 0 ≤ sizeLimit ∧ f.prec.getD 0 ≤ sizeLimit) :=
+  ⟨sf_strFormat_ok spec, sf_intFormat_small spec, sf_intFormat_big spec, sf_floatFormat_ok spec⟩
+
+/-- THE PROPERTY for the plain formats of `style format`, under the weakest hypothesis on the record: a plain format
+    accepted at load time (arbitrary-fields off) never raises when the formatter built from it formats a record that has
+    the known attributes — `asctime` only if `{asctime` occurs in the format, as `logging.Formatter.format` sets it only
+    then — with a `str` where the logging package puts one, anything printable for the object-valued attributes, level and
+    line numbers in `0 ≤ n < 0x110000`, thread and process ids that convert to `float`, and ANY `float` as time stamps.
+    PARTIAL: the unrestricted statement (`C20_strformat_format_safe`, every accepted format) is false for the real code —
+    see `C20_strformat_index_needed`, `C20_strformat_attr_needed`, `C20_strformat_nested_needed`; what is missing between
+    the two is the formats with `.attr` suffixes on string / number attributes (safe, not proved) and with nested fields
+    that refer to level or line numbers (`{message:{lineno}}`: safe up to memory, not proved). -/
+theorem C20_strformat_format_safe_wide_partial (fmt : Str) (h : acceptsStrFormat fmt = true) (hp : Plain fmt) (r : SDict)
+    (hr : RecordForStr fmt r) : formatStr fmt r = .ok () :=
+  sf_plain_safe fmt h hp r hr
+
+/-- THE PROPERTY for the plain formats, as the formatter meets it: the record is an ordinary record (the notion of the
+    classic style: strings, small level and line numbers, thread and process ids below 2^64, finite time stamps, printable
+    objects) where `asctime` need only be there when the format uses the time. -/
+theorem C20_strformat_format_safe_for_partial (fmt : Str) (h : acceptsStrFormat fmt = true) (hp : Plain fmt) (r : SDict)
+    (hr : OrdinaryStrFor fmt r) : formatStr fmt r = .ok () :=
+  sf_plain_safe fmt h hp r (sf_ordinaryFor_record fmt r hr)
+
+/-- THE PROPERTY for the plain formats of `style format`: accepted at load time → every ordinary record (all attributes
+    present, with the types and ranges logging gives them: `LogFormatSpec.Ordinary`, the same notion as for the classic
+    style) is formatted without raising.  PARTIAL: restricted to `Plain` formats, see
+    `C20_strformat_format_safe_wide_partial`. -/
+theorem C20_strformat_format_safe_partial (fmt : Str) (h : acceptsStrFormat fmt = true) (hp : Plain fmt) (r : SDict)
+    (hr : OrdinaryStr r) : formatStr fmt r = .ok () :=
+  C20_strformat_format_safe_for_partial fmt h hp r (sf_ordinary_for fmt r hr)
+
+/-- The same through ZConfig's own stylist: with a formatter class that has no `style` parameter, `FormatterFactory.__call__`
+    installs `StrFormatStyle.format` — `string.Formatter().vformat(fmt, (), record.__dict__)` — as `formatMessage`; an
+    accepted plain format never raises there either (and here a missing attribute would be a `KeyError`). -/
+theorem C20_strformat_stylist_safe_partial (fmt : Str) (h : acceptsStrFormat fmt = true) (hp : Plain fmt) (r : SDict)
+    (hr : RecordForStr fmt r) : formatStrStylist fmt r = .ok () :=
+  sf_plain_safe_stylist fmt h hp r hr
+
+/-- An accepted `format`-style format can be used to build the formatter: `FormatterFactory.__call__`
+    (= `logging.Formatter(fmt, datefmt, style='{')`, which validates the format) does not raise. -/
+theorem C20_strformat_formatter_builds (fmt : Str) (h : acceptsStrFormat fmt = true) : buildStrFormatter fmt = .ok () :=
+  ((sf_accepts_iff fmt).mp h).2
+
+/-- The exception classes.  At load time `IndexError` never escapes (`FormatterFactory` turns the `IndexError` of a
+    positional field `{}` / `{0}` — and of an index suffix out of range — into `ValueError`), building the formatter only
+    ever raises `ValueError`; at run time `KeyError` never escapes (`logging` turns it into `ValueError`).  Every other class
+    does occur, at load time and at run time: see the examples below (`ValueError`, `TypeError`, `KeyError`,
+    `AttributeError`, `OverflowError` at load time; `ValueError`, `TypeError`, `IndexError`, `AttributeError`,
+    `OverflowError` at run time). -/
+theorem C20_strformat_errors (fmt : Str) (e : SErr) :
+    (loadCheckStrFormat fmt = .error e → e ≠ .indexError) ∧
+    (buildStrFormatter fmt = .error e → e = .valueError) ∧
+    (∀ r, formatStr fmt r = .error e → e ≠ .keyError) := by
+  refine ⟨fun h => ?_, fun h => sf_validate_error fmt e h, fun r h => ?_⟩
+  · unfold loadCheckStrFormat buildStrFormatter at h
+    cases hv : vformatRun (effectiveStr fmt) sampleSDict with
+    | error e' =>
+      cases e' <;> simp only [hv, Except.error.injEq] at h <;> subst h <;> simp
+    | ok u =>
+      simp only [hv] at h
+      rw [sf_validate_error fmt e h]; simp
+  · unfold formatStr at h
+    cases hv : cformatRun (effectiveStr fmt) r with
+    | error e' =>
+      cases e' <;> simp only [hv, Except.error.injEq] at h <;> subst h <;> simp
+    | ok u => simp [hv] at h
+
+/-- From the configuration text: the `escaped_string` datatype turns `\n \t \b \f \r` into control characters, the
+    result is what is checked at load time and what the formatter uses. -/
+theorem C20_strformat_configured_safe_partial (raw : Str) (h : acceptsStrFormatConfigured raw = true)
+    (hp : Plain (ctrlCharInsert raw)) (r : SDict) (hr : OrdinaryStr r) : formatStr (ctrlCharInsert raw) r = .ok () :=
+  C20_strformat_format_safe_partial _ h hp r hr
+
+/-- The restriction to formats without `[index]` suffix is needed — A VIOLATION OF THE PROPERTY BY THE REAL CODE:
+    `{message[0]}` IS accepted at load time (the sample message is `'amessage'`, and logging's `field_spec` pattern allows
+    index suffixes), and formatting raises `IndexError` ("string index out of range") for every record whose message is
+    empty — `logger.info("")` — through `logging.Formatter.formatMessage`. -/
+theorem C20_strformat_index_needed (r : SDict) (hr : r "message".toList = some (.str [])) :
+    acceptsStrFormat "{message[0]}".toList = true ∧ formatStr "{message[0]}".toList r = .error .indexError := by
+  refine ⟨by decide +kernel, ?_⟩
+  refine sf_formatStr_single _ r "message[0]".toList none [] (by decide +kernel) _ (by decide) ?_
+  apply sf_evalField_getField_error
+  rw [sf_getField_of .cformat r "message[0]".toList "message".toList [.idx 0] (.str []) (by decide +kernel)
+    (by decide +kernel) (by decide +kernel) (by decide +kernel) hr]
+  rfl
+
+/-- The restriction to formats without `.attr` suffix is needed, at least on the attributes whose TYPE varies — ANOTHER
+    VIOLATION: `{exc_text.__bool__}` IS accepted at load time (the sample `exc_text` is `None`, and `None.__bool__` exists),
+    and formatting raises `AttributeError` for every record whose `exc_text` is a string (the cached traceback text of a
+    record logged with `exc_info`).  The same happens with `{exc_info.__bool__}` when `exc_info` is the usual tuple and
+    with `{stack_info.__bool__}`, `{taskName.__bool__}`. -/
+theorem C20_strformat_attr_needed (r : SDict) (s : Str) (hr : r "exc_text".toList = some (.str s)) :
+    acceptsStrFormat "{exc_text.__bool__}".toList = true ∧
+    formatStr "{exc_text.__bool__}".toList r = .error .attributeError := by
+  refine ⟨by decide +kernel, ?_⟩
+  refine sf_formatStr_single _ r "exc_text.__bool__".toList none [] (by decide +kernel) _ (by decide) ?_
+  apply sf_evalField_getField_error
+  rw [sf_getField_of .cformat r "exc_text.__bool__".toList "exc_text".toList [.attr "__bool__".toList] (.str s)
+    (by decide +kernel) (by decide +kernel) (by decide +kernel) (by decide +kernel) hr]
+  have : strAttrs.contains "__bool__".toList = false := by decide +kernel
+  simp only [walk, access, attrOf, this, Bool.false_eq_true, if_false]
+
+/-- The restriction to formats without nested fields is needed — A THIRD VIOLATION: `{message:{relativeCreated}}` IS
+    accepted at load time (the sample value `1.1` makes the spec `1.1`: width 1, precision 1), and formatting raises
+    `ValueError` ("Sign not allowed in string format specifier") for every record whose `relativeCreated` is negative, say
+    `-5.25` (the clock was set back since `logging` was imported).  With `{message:{created}}` the width becomes the time
+    stamp: 1.7 · 10^9 fill characters (the model abstains there: `MemoryError` or not). -/
+theorem C20_strformat_nested_needed (r : SDict) (s : Str) (hm : r "message".toList = some (.str s))
+    (hr : r "relativeCreated".toList = some (.float .finite "-5.25".toList)) :
+    acceptsStrFormat "{message:{relativeCreated}}".toList = true ∧
+    formatStr "{message:{relativeCreated}}".toList r = .error .valueError := by
+  refine ⟨by decide +kernel, ?_⟩
+  refine sf_formatStr_single _ r "message".toList none "{relativeCreated}".toList (by decide +kernel) _ (by decide) ?_
+  have hg : getField .cformat r "message".toList = .ok (.str s) := by
+    rw [sf_getField_of .cformat r "message".toList "message".toList [] (.str s)
+      (by decide +kernel) (by decide +kernel) (by decide +kernel) (by decide +kernel) hm]
+    rfl
+  have hg2 : getField .cformat r "relativeCreated".toList = .ok (.float .finite "-5.25".toList) := by
+    rw [sf_getField_of .cformat r "relativeCreated".toList "relativeCreated".toList [] _
+      (by decide +kernel) (by decide +kernel) (by decide +kernel) (by decide +kernel) hr]
+    rfl
+  have hp1 : LogStrFormat.parse "{relativeCreated}".toList = [.field "relativeCreated".toList none []] := by decide +kernel
+  have hc : ("{relativeCreated}".toList).contains '{' = true := by decide +kernel
+  have hc2 : ([] : Str).contains '{' = false := rfl
+  have hx : evalStr .cformat r 1 "{relativeCreated}".toList = .ok (some "-5.25".toList) := by
+    unfold evalStr
+    rw [hp1]
+    simp only [LogStrFormat.runItems, sf_evalField_cformat r _ _ none [] hc2 _ hg2, convert, formatObj, List.isEmpty_nil,
+      if_true, Val.toValue, strCheck, strText, catText, List.append_nil]
+  have hm' : (Mode.cformat == Mode.cformat) = true := rfl
+  have hf : strFormat "-5.25".toList = .error .valueError := by decide +kernel
+  unfold evalField
+  simp only [hg, convert, hm', hc, Bool.not_true, Bool.and_false, Bool.false_eq_true, if_false, hx]
+  rw [sf_formatObj_val_nonempty _ _ (by decide)]
+  simp only [hf, Except.map]
+
+/-- The range of level and line numbers in the notion of ordinary record is needed: `{lineno:c}` IS accepted at load time
+    (the sample line number is 1), and formatting raises `OverflowError` ("%c arg not in range(0x110000)") for every record
+    whose line number is not a code point. -/
+theorem C20_strformat_char_needs_range (n : Int) (hn : n < 0 ∨ 0x110000 ≤ n) (r : SDict)
+    (hr : r "lineno".toList = some (.int n)) :
+    acceptsStrFormat "{lineno:c}".toList = true ∧ formatStr "{lineno:c}".toList r = .error .overflowError := by
+  refine ⟨by decide +kernel, ?_⟩
+  refine sf_formatStr_single _ r "lineno".toList none "c".toList (by decide +kernel) _ (by decide) ?_
+  have hg : getField .cformat r "lineno".toList = .ok (.int n) := by
+    rw [sf_getField_of .cformat r "lineno".toList "lineno".toList [] _
+      (by decide +kernel) (by decide +kernel) (by decide +kernel) (by decide +kernel) hr]
+    rfl
+  rw [sf_evalField_cformat r _ _ none "c".toList (by decide +kernel) _ hg]
+  simp only [convert]
+  rw [sf_formatObj_val_nonempty _ _ (by decide)]
+  have hp : parseFSpec (some 'd') "c".toList = some { type := some 'c' } := by decide +kernel
+  have hm : ¬ (0 ≤ n ∧ n ≤ maxUnicode) := by simp only [maxUnicode]; omega
+  simp +decide only [intFormat, hp, if_false, hm, Except.map, if_true]
+
+/-- The 4300-digit bound on thread and process ids (and on every `int` a record carries) is needed: `{process}`,
+    `{process:d}` and `{process!r:>12}` ARE accepted at load time, and formatting raises `ValueError` ("Exceeds the limit
+    (4300 digits) for integer string conversion") for every record whose `process` is an int of more than 4300 decimal
+    digits; `{process:x}` formats it. -/
+theorem C20_strformat_str_limit_needed (n : Int) (hn : 10 ^ 4300 ≤ n.natAbs) (r : SDict)
+    (hr : r "process".toList = some (.int n)) :
+    acceptsStrFormat "{process}".toList = true ∧ acceptsStrFormat "{process:d}".toList = true ∧
+    acceptsStrFormat "{process!r:>12}".toList = true ∧ acceptsStrFormat "{process:x}".toList = true ∧
+    formatStr "{process}".toList r = .error .valueError ∧ formatStr "{process:d}".toList r = .error .valueError ∧
+    formatStr "{process!r:>12}".toList r = .error .valueError ∧ formatStr "{process:x}".toList r = .ok () := by
+  have hg : getField .cformat r "process".toList = .ok (.int n) := by
+    rw [sf_getField_of .cformat r "process".toList "process".toList [] _
+      (by decide +kernel) (by decide +kernel) (by decide +kernel) (by decide +kernel) hr]
+    rfl
+  have hs : strCheck (.int n) = .error .valueError := by
+    have h1 : strCheck (.int n) = if n.natAbs < 10 ^ LogFormat.intMaxStrDigits then .ok () else .error .valueError := rfl
+    have h2 : LogFormat.intMaxStrDigits = 4300 := rfl
+    rw [h1, h2, if_neg (by omega)]
+  refine ⟨by decide +kernel, by decide +kernel, by decide +kernel, by decide +kernel, ?_, ?_, ?_, ?_⟩
+  · refine sf_formatStr_single _ r "process".toList none [] (by decide +kernel) _ (by decide) ?_
+    rw [sf_evalField_cformat r _ _ none [] rfl _ hg]
+    simp only [convert, formatObj, List.isEmpty_nil, if_true, Val.toValue, hs, ofPyErr]
+  · refine sf_formatStr_single _ r "process".toList none "d".toList (by decide +kernel) _ (by decide) ?_
+    rw [sf_evalField_cformat r _ _ none "d".toList (by decide +kernel) _ hg]
+    simp only [convert]
+    rw [sf_formatObj_val_nonempty _ _ (by decide)]
+    have hp : parseFSpec (some 'd') "d".toList = some { type := some 'd' } := by decide +kernel
+    simp +decide only [intFormat, hp, if_false, hs, ofPyErr, Except.map, if_true]
+  · refine sf_formatStr_single _ r "process".toList (some 'r') ">12".toList (by decide +kernel) _ (by decide) ?_
+    rw [sf_evalField_cformat r _ _ (some 'r') ">12".toList (by decide +kernel) _ hg]
+    have h1 : ('r' == 's') = false := by decide
+    have h2 : ('r' == 'r' || 'r' == 'a') = true := by decide
+    simp only [convert, h1, h2, Bool.false_eq_true, if_false, if_true, Val.toValue, hs, ofPyErr]
+  · refine sf_formatStr_single_ok _ r "process".toList none "x".toList (by decide +kernel) none ?_
+    rw [sf_evalField_cformat r _ _ none "x".toList (by decide +kernel) _ hg]
+    simp only [convert]
+    rw [sf_formatObj_val_nonempty _ _ (by decide)]
+    have hp : parseFSpec (some 'd') "x".toList = some { type := some 'x' } := by decide +kernel
+    simp +decide only [intFormat, hp, if_false, Except.map, if_true, sizeCheck]
+
+/-! ### Examples (`style format`) -/
+
+example : LogStrFormat.parse "a{{b}} {name!r:>{lineno}} {message[0].upper}x}".toList =
+    [.lit "a{".toList, .lit "b}".toList, .lit " ".toList, .field "name".toList (some 'r') ">{lineno}".toList,
+     .lit " ".toList, .field "message[0].upper".toList none [], .bad] := by decide +kernel
+example : acceptsStrFormat "{asctime} {levelname:>8} [{name}:{lineno:04d}] {message}".toList = true ∧
+    Plain "{asctime} {levelname:>8} [{name}:{lineno:04d}] {message}".toList := by decide +kernel
+example : acceptsStrFormat [] = true ∧ acceptsStrFormatConfigured "a\\nb\\t{message}".toList = true := by decide +kernel
+/-- the spec `*>+#012,.3f` as `parse_internal_render_format_spec` reads it (fill and zero flag are not kept) -/
+example : parseFSpec (some 'd') "*>+#012,.3f".toList =
+    some { align := some '>', sign := some '+', alt := true, width := some 12, prec := some 3, type := some 'f' } := by
+  decide +kernel
+/-- accepted although not plain: attribute and index suffixes, a nested width -/
+example : acceptsStrFormat "{message.upper} {levelno.real:c} {message[7]} {message:>{lineno}} {created:{levelno}.{lineno}f}".toList
+    = true := by decide +kernel
+/-- refused, with the class of the exception that escapes at load time: no field, a positional field, a presentation type
+    the value does not take, a spec on `None`, an unknown attribute name, an unknown attribute of a `str`, `c` on a thread id;
+    on `{args.count}` (the attributes of a tuple are not modelled) the model abstains -/
+example : loadCheckStrFormat "hello".toList = .error .valueError ∧ loadCheckStrFormat "{}".toList = .error .valueError ∧
+    loadCheckStrFormat "{0}".toList = .error .valueError ∧ loadCheckStrFormat "{message:d}".toList = .error .valueError ∧
+    loadCheckStrFormat "{message[99]}".toList = .error .valueError ∧
+    loadCheckStrFormat "{exc_info:5}".toList = .error .typeError ∧ loadCheckStrFormat "{message[x]}".toList = .error .typeError ∧
+    loadCheckStrFormat "{nope}".toList = .error .keyError ∧ loadCheckStrFormat "{.real}".toList = .error .keyError ∧
+    loadCheckStrFormat "{message.nope}".toList = .error .attributeError ∧
+    loadCheckStrFormat "{thread:c}".toList = .error .overflowError ∧
+    loadCheckStrFormat "{args.count}".toList = .error .unmodelled := by decide +kernel
+/-- accepted by the trial formatting, refused by logging's validation (`z`, a conversion other than `r s a` cannot get that
+    far, a field hidden from `field_spec` by a blank) — and the converse: logging's pattern would let `{message:d}` through -/
+example : vformatRun "{created:z}".toList sampleSDict = .ok () ∧ validateStr "{created:z}".toList = .error .valueError ∧
+    vformatRun "{message:d}".toList sampleSDict = .error .valueError ∧ validateStr "{message:d}".toList = .ok () := by
+  decide +kernel
+/-- the two implementations differ: `string.Formatter().vformat` (load time) looks a field nested three deep up before it
+    fails, and takes `{.real}` for the key `''`; `str.format` (run time) does neither -/
+example : vformatRun "{message:{lineno:{nope}}}".toList sampleSDict = .error .keyError ∧
+    cformatRun "{message:{lineno:{nope}}}".toList sampleSDict = .error .valueError ∧
+    vformatRun "{.real}".toList sampleSDict = .error .keyError ∧
+    cformatRun "{.real}".toList sampleSDict = .error .indexError := by decide +kernel
+
+/-- the record of the classic examples, the floats with their `repr` -/
+def exRecordVals : List (Str × LogStrFormat.Val) :=
+  [("name".toList, .str "x".toList), ("msg".toList, .str "disk %s full".toList), ("args".toList, .other),
+   ("levelname".toList, .str "WARNING".toList), ("levelno".toList, .int 30), ("pathname".toList, .str "/srv/x.py".toList),
+   ("filename".toList, .str "x.py".toList), ("module".toList, .str "x".toList), ("exc_info".toList, .none),
+   ("exc_text".toList, .none), ("stack_info".toList, .none), ("lineno".toList, .int 1207), ("funcName".toList, .str "f".toList),
+   ("created".toList, .float .finite "1727600000.123".toList), ("msecs".toList, .float .finite "123.0".toList),
+   ("relativeCreated".toList, .float .finite "5012.25".toList),
+   ("thread".toList, .int 139872345061184), ("threadName".toList, .str "MainThread".toList),
+   ("processName".toList, .str "MainProcess".toList), ("process".toList, .int 4194304), ("taskName".toList, .none),
+   ("asctime".toList, .str "2026-09-29 10:00:00,123".toList), ("message".toList, .str "disk sda full".toList)]
+
+/-- the hypotheses of `C20_strformat_format_safe_partial` are satisfiable -/
+example : OrdinaryStr (lookupS exRecordVals) ∧
+    acceptsStrFormat "{levelno:c} {name!r:^10} {thread:x} {created:.3f} {exc_info}".toList = true ∧
+    Plain "{levelno:c} {name!r:^10} {thread:x} {created:.3f} {exc_info}".toList :=
+  ⟨sf_ordinary_of_table _ (by decide +kernel), by decide +kernel, by decide +kernel⟩
+example : formatStr "{levelno:c} {name!r:^10} {thread:x} {created:.3f} {exc_info}".toList (lookupS exRecordVals) = .ok () := by
+  decide +kernel
+/-- the same record without `asctime`, as a formatter whose format does not use the time sees it; with infinite time
+    stamps it is still one `C20_strformat_format_safe_wide_partial` covers -/
+example : RecordForStr "{levelname} {message}".toList (lookupS (exRecordVals.filter (fun p => p.1 != "asctime".toList))) ∧
+    lookupS (exRecordVals.filter (fun p => p.1 != "asctime".toList)) "asctime".toList = none ∧
+    RecordForStr "{created:.1f}".toList
+      (lookupS (("created".toList, LogStrFormat.Val.float .inf "inf".toList) :: exRecordVals.filter (fun p => p.1 != "asctime".toList))) :=
+  ⟨sf_record_of_table _ _ (by decide +kernel), by decide +kernel, sf_record_of_table _ _ (by decide +kernel)⟩
+/-- run time on the example record: the exception classes that escape from `formatMessage` — a missing attribute is a
+    ValueError (logging turns the KeyError into one), a positional field an IndexError … -/
+example : formatStr "{nope}".toList (lookupS exRecordVals) = .error .valueError ∧
+    formatStr "{}".toList (lookupS exRecordVals) = .error .indexError ∧
+    formatStr "{message[99]}".toList (lookupS exRecordVals) = .error .indexError ∧
+    formatStr "{exc_info:5}".toList (lookupS exRecordVals) = .error .typeError ∧
+    formatStr "{message.nope}".toList (lookupS exRecordVals) = .error .attributeError ∧
+    formatStr "{thread:c}".toList (lookupS exRecordVals) = .error .overflowError ∧
+    formatStr "{message:{lineno}}".toList (lookupS exRecordVals) = .ok () ∧
+    formatStr "{message:{created}}".toList (lookupS exRecordVals) = .error .unmodelled := by decide +kernel
+/-- instances of the hypotheses of the counterexamples -/
+example : (10 : Nat) ^ 4300 ≤ ((10 : Int) ^ 4300).natAbs := by decide +kernel
+example : formatStr "{message[0]}".toList (lookupS (("message".toList, LogStrFormat.Val.str []) :: exRecordVals)) = .error .indexError ∧
+    OrdinaryStr (lookupS (("message".toList, LogStrFormat.Val.str []) :: exRecordVals)) :=
+  ⟨by decide +kernel, sf_ordinary_of_table _ (by decide +kernel)⟩
+
+end StrFormat
 
 end ZCV.Props.C20
